@@ -61,6 +61,46 @@ class VecV(object):
         return 'Vec(len=%r,%r)' % (self.length, self.cells)
 
 
+class MapV(object):
+    """model of a concurrent hash map with concrete candidate keys:
+    entries = tuple of (key value (all-constant), present Term, value)"""
+    __slots__ = ('entries',)
+
+    def __init__(self, entries=()):
+        self.entries = tuple(entries)
+
+    def __repr__(self):
+        return 'Map(%r)' % (self.entries,)
+
+
+class FifoV(object):
+    """model of an unbounded FIFO as guarded, append-only entries:
+    entries = tuple of (entry id (creation order), present Term, popped Term, value)"""
+    __slots__ = ('entries',)
+
+    def __init__(self, entries=()):
+        self.entries = tuple(entries)
+
+    def __repr__(self):
+        return 'Fifo(%r)' % (self.entries,)
+
+
+def key_repr(v):
+    """hashable python form of an all-constant value (or None if not constant)"""
+    if isinstance(v, S.Term):
+        return v.args[0] if v.op == 'const' else None
+    if isinstance(v, tuple):
+        r = tuple(key_repr(x) for x in v)
+        return None if any(x is None for x in r) else r
+    if isinstance(v, EnumV):
+        if v.tag.op != 'const':
+            return None
+        t = v.tag.args[0]
+        p = key_repr(v.payloads.get(t, ()))
+        return None if p is None else ('e', t, p)
+    return None
+
+
 def enum_const(idx, fields=()):
     return EnumV(S.bv(idx, 64), {idx: tuple(fields)})
 
@@ -122,6 +162,41 @@ def merge(c, a, b):
         if a == b:
             return a
         raise Unsupported('merge of different references %r / %r' % (a, b))
+    if isinstance(a, MapV):
+        if not isinstance(b, MapV):
+            raise Unsupported('merge map with %r' % (b,))
+        kb = {key_repr(e[0]): e for e in b.entries}
+        out = []
+        seen = set()
+        for e in a.entries:
+            k = key_repr(e[0])
+            seen.add(k)
+            f = kb.get(k)
+            if f is None:
+                out.append((e[0], S.And(c, e[1]), e[2]))
+            else:
+                out.append((e[0], S.Ite(c, e[1], f[1]), merge(c, e[2], f[2])))
+        for f in b.entries:
+            if key_repr(f[0]) not in seen:
+                out.append((f[0], S.And(S.Not(c), f[1]), f[2]))
+        return MapV(out)
+    if isinstance(a, FifoV):
+        if not isinstance(b, FifoV):
+            raise Unsupported('merge fifo with %r' % (b,))
+        kb = {e[0]: e for e in b.entries}
+        ka = {e[0] for e in a.entries}
+        out = []
+        for e in a.entries:
+            f = kb.get(e[0])
+            if f is None:
+                out.append((e[0], S.And(c, e[1]), e[2], e[3]))
+            else:
+                out.append((e[0], S.Ite(c, e[1], f[1]), S.Ite(c, e[2], f[2]), merge(c, e[3], f[3])))
+        for f in b.entries:
+            if f[0] not in ka:
+                out.append((f[0], S.And(S.Not(c), f[1]), f[2], f[3]))
+        out.sort(key=lambda e: e[0])
+        return FifoV(out)
     if a == b:
         return a
     return Poison('merge of %r / %r' % (a, b))
@@ -192,6 +267,15 @@ def terms_of(v, out):
     elif isinstance(v, VecV):
         out.append(v.length)
         for x in v.cells:
+            terms_of(x, out)
+    elif isinstance(v, MapV):
+        for k, p, x in v.entries:
+            out.append(p)
+            terms_of(x, out)
+    elif isinstance(v, FifoV):
+        for _, p, q, x in v.entries:
+            out.append(p)
+            out.append(q)
             terms_of(x, out)
     return out
 
